@@ -34,6 +34,13 @@ CLAIMED = {
          "bbox (both paths), labeled.bbox and center_of_mass have executable models compared with executable Coq specifications and with "
          "the fresh build on generated inputs",
          "Rocq proof + translator + differential correspondence"),
+ "C03": ("proof", "Coq theorems (any dimension, any connectivity element): the joins performed by the scan are exactly the "
+         "in-image adjacencies of the property (through the re-translated fix_offset in constant mode); the label map is 0 "
+         "exactly on zeros; two non-zero pixels share a label iff they are related by the equivalence closure of those "
+         "adjacencies (quick-find invariant); labels are 1..n in scan order of first appearance and the count is n (shared "
+         "renumbering lemmas). union-find is modelled by its specification; model and an independent evaluation of the "
+         "definition are compared with the fresh build on generated and (thorough) exhaustive inputs",
+         "Rocq proof + translator + differential correspondence"),
 }
 NOT_YET = "check not built yet in this round (see DESIGN.md section 8 for the plan)"
 ALL = ["C%02d" % i for i in range(1, 21)]
